@@ -18,9 +18,13 @@ def _goals(text):
 def corpus(sub="corpus"):
     """hand-written seed corpus: one program per mechanism (DESIGN 2.7)"""
     out = []
-    for f in sorted(glob.glob(os.path.join(ROOT, sub, "*.prob"))):
-        text = open(f).read()
-        out.append((os.path.basename(f)[:-5], text, _goals(text)))
+    dirs = [os.path.join(ROOT, sub)]
+    if sub == "corpus" and os.environ.get("VERIF_EXTRA_CORPUS"):
+        dirs.append(os.environ["VERIF_EXTRA_CORPUS"])   # development only: try programs before adding them to the corpus
+    for d in dirs:
+        for f in sorted(glob.glob(os.path.join(d, "*.prob"))):
+            text = open(f).read()
+            out.append((os.path.basename(f)[:-5], text, _goals(text)))
     return out
 
 
